@@ -8,6 +8,8 @@ pub mod out;
 pub mod report;
 pub mod par;
 pub mod ieee;
+pub mod exact;
+pub mod lit;
 
 pub use lay::{mask, Lay, Layout};
 pub use out::Out;
